@@ -94,10 +94,10 @@ fn check_site(site: &CallSite, cfg: &Cfg) -> SiteResult {
     args.list_len = cfg.list_len;
     args.choice_at = cfg.choice_at;
     args.choice = 0;
-    // ids are taken from the builder: a pool of 120 is reserved up front and the arguments are drawn from it
+    // ids are taken from the builder: a pool of 320 is reserved up front and the arguments are drawn from it
     args.word_base = 1;
-    args.word_step = 6;
-    const EXPLICIT: u32 = 121;
+    args.word_step = 16;
+    const EXPLICIT: u32 = 321;
     if cfg.explicit_id {
         args.result_id = Some(EXPLICIT);
     }
@@ -126,7 +126,7 @@ fn check_site(site: &CallSite, cfg: &Cfg) -> SiteResult {
         if !cfg.version_late {
             b.set_version(1, 3);
         }
-        for _ in 0..120 {
+        for _ in 0..320 {
             b.id();
         }
         let explicit = b.id();
@@ -300,6 +300,7 @@ fn configs(site: &CallSite, tier: Tier) -> Vec<Cfg> {
     if site.params.iter().any(|p| matches!(p.ty, Ty::Words | Ty::U32s | Ty::PairsWW | Ty::PairsWU | Ty::PairsOW)) {
         v.push(Cfg { list_len: 0, ..base.clone() });
         v.push(Cfg { list_len: 1, ..base.clone() });
+        v.push(Cfg { list_len: 7, ..base.clone() });
     }
     if matches!(site.name, "variable" | "undef" | "line" | "no_line") {
         v.push(Cfg { in_block: true, ..base.clone() });
